@@ -384,6 +384,19 @@ def inline_new_temporaries(f, ent):
         if not repl:
             break
         changed = True
+        # a new temporary may be defined in terms of another one: close the replacements first
+        for _ in range(6):
+            dirty = False
+            for k_ in list(repl):
+                holder = {'k': 'Cast', 'ck': 'NoOp', 'impl': True, 'e': repl[k_]}
+                if any(y['k'] == 'Ref' and y.get('id') in repl and y.get('id') != k_ for y in walk(holder['e'])):
+                    import copy as _copy
+                    holder = {'k': 'Cast', 'ck': 'NoOp', 'impl': True, 'e': _copy.deepcopy(repl[k_])}
+                    _substitute(holder, {i_: v_ for i_, v_ in repl.items() if i_ != k_})
+                    repl[k_] = holder['e']
+                    dirty = True
+            if not dirty:
+                break
         for x in walk(f['body']):
             if x['k'] == 'Decl':
                 x['d'] = [d for d in x['d'] if d.get('id') not in repl]
@@ -559,6 +572,7 @@ def inline_new_helpers(F, pinned):
                 helpers[q] = f
                 break
     if not helpers:
+        inline_new_statement_helpers(F, known_q, set())
         return
 
     def simple(a):
@@ -626,6 +640,116 @@ def inline_new_helpers(F, pinned):
                 f['_helpers_inlined'] = True
                 if any(x['k'] == 'Call' and x.get('fn') in helpers for x in walk(f['body'])):
                     expand(f['body'])
+    inline_new_statement_helpers(F, known_q, set(helpers))
+
+
+def inline_new_statement_helpers(F, known_q, done):
+    """The same for helpers that are a few statements long (`static void put_u32(state, v) { store32(&t, v); update(state, &t, 4); }`,
+    `static void* checked(void* p) { if (!p) throw ...; return p; }`): a call that is a whole statement, the operand of a return, or the right-hand side of a
+    plain assignment / initialisation is replaced by the helper's statements.  Only for functions that do not exist on the pinned tree, with simple arguments."""
+    import copy
+    helpers = {}
+    for q, fs in F._funcs.items():
+        if q in known_q or q in done:
+            continue
+        for f in fs:
+            b = f.get('body')
+            if b is None or '/src/' not in f.get('file', '') or b['k'] != 'Compound':
+                continue
+            st = [x for x in b['s'] if x['k'] != 'Null']
+            if not st or len(list(walk(b))) > 400:
+                continue
+            if any(x['k'] == 'Call' and x.get('fn') == q for x in walk(b)):
+                continue
+            rets = [x for x in walk(b) if x['k'] == 'Return']
+            helpers[q] = dict(f=f, stmts=st, rets=rets, tail_ret=(st[-1]['k'] == 'Return' and len(rets) == 1))
+            break
+    if not helpers:
+        return
+
+    def simple(a):
+        a = strip_all(a)
+        while a['k'] == 'Un' and a.get('op') in ('&', '*'):
+            a = strip_all(a['e'])
+        return a['k'] in ('Ref', 'Int', 'Bool', 'Mem', 'This', 'Null', 'Str') or 'v' in a
+
+    def instantiate(h, call):
+        args = call.get('a', [])
+        f = h['f']
+        if len(args) != len(f['params']):
+            return None
+        if is_node(call.get('this')) and strip_all(call['this'])['k'] != 'This':
+            return None
+        body = copy.deepcopy(h['stmts'])
+        wrap = {'k': 'Compound', 's': body, 'ln': call.get('ln')}
+        _substitute(wrap, {p['id']: a for p, a in zip(f['params'], args) if simple(a)})
+        # an argument with effects (a call) is evaluated once, into the parameter, exactly as the call would have done
+        pre = [{'k': 'Decl', 'ln': call.get('ln'), 'd': [{'name': p.get('name'), 'id': p['id'], 'ty': p.get('ty'), 'static': False, 'tls': False, 'const': False, 'init': a}]}
+               for p, a in zip(f['params'], args) if not simple(a)]
+        wrap['s'] = pre + wrap['s']
+        return wrap
+
+    def call_of(e):
+        e = strip_all(e) if is_node(e) else None
+        while e is not None and e['k'] == 'Cast':
+            e = strip_all(e['e'])
+        return e if e is not None and e['k'] == 'Call' and e.get('fn') in helpers else None
+
+    def rewrite(comp):
+        if not is_node(comp):
+            return
+        if comp['k'] == 'Compound':
+            out = []
+            for st in comp['s']:
+                top = strip_all(st)
+                c = call_of(st) if st['k'] not in ('Return', 'Decl', 'If', 'For', 'While', 'Do', 'Compound', 'Switch') else None
+                if c is not None and not helpers[c['fn']]['rets'] or (c is not None and helpers[c['fn']]['tail_ret'] and not is_node(helpers[c['fn']]['stmts'][-1].get('e'))):
+                    w = instantiate(helpers[c['fn']], c)
+                    if w is not None:
+                        out += [x for x in w['s'] if x['k'] != 'Return']
+                        continue
+                if st['k'] == 'Return' and call_of(st.get('e')) is not None:
+                    c = call_of(st['e'])
+                    w = instantiate(helpers[c['fn']], c)
+                    if w is not None:
+                        out += w['s']
+                        continue
+                if top['k'] == 'Assign' and call_of(top['r']) is not None and helpers[call_of(top['r'])['fn']]['tail_ret']:
+                    c = call_of(top['r'])
+                    w = instantiate(helpers[c['fn']], c)
+                    if w is not None and is_node(w['s'][-1].get('e')):
+                        out += w['s'][:-1]
+                        new = dict(top)
+                        new['r'] = w['s'][-1]['e']
+                        out.append(new)
+                        continue
+                if st['k'] == 'Decl' and len(st['d']) == 1 and 'init' in st['d'][0] and call_of(st['d'][0]['init']) is not None and helpers[call_of(st['d'][0]['init'])['fn']]['tail_ret']:
+                    c = call_of(st['d'][0]['init'])
+                    w = instantiate(helpers[c['fn']], c)
+                    if w is not None and is_node(w['s'][-1].get('e')):
+                        out += w['s'][:-1]
+                        nd = dict(st)
+                        d0 = dict(st['d'][0])
+                        d0['init'] = w['s'][-1]['e']
+                        nd['d'] = [d0]
+                        out.append(nd)
+                        continue
+                out.append(st)
+            comp['s'] = out
+            for st in comp['s']:
+                rewrite(st)
+            return
+        for c in children(comp):
+            rewrite(c)
+
+    for q, fs in F._funcs.items():
+        if q in helpers:
+            continue
+        for f in fs:
+            if f.get('body') is not None and not f.get('_stmt_helpers_inlined'):
+                f['_stmt_helpers_inlined'] = True
+                if any(x['k'] == 'Call' and x.get('fn') in helpers for x in walk(f['body'])):
+                    rewrite(f['body'])
 
 
 class Facts:
